@@ -318,6 +318,45 @@ class FileScanHelper:
         fix_nolog_rescan: bool,
         fix_list: List[str],
         collect_list: List[str],
+        original_file: str,
+        working_file_holder: List[Tuple[str, bool]],
+    ) -> Tuple[bool, Set[str], Set[str]]:
+        # Any temporary file created during this pass is recorded here as soon as
+        # its name is known, so that it is removed on every path out of the pass.
+        temporary_files: List[str] = []
+        try:
+            return self.__process_file_fix_pass_inner(
+                next_file,
+                next_file_name,
+                fix_debug,
+                fix_file_debug,
+                fix_nolog_rescan,
+                fix_list,
+                collect_list,
+                original_file,
+                working_file_holder,
+                temporary_files,
+            )
+        finally:
+            for next_temporary_file in temporary_files:
+                if os.path.exists(next_temporary_file):
+                    os.remove(next_temporary_file)
+
+    # pylint: enable=too-many-arguments, too-many-locals
+
+    # pylint: disable=too-many-arguments, too-many-locals
+    def __process_file_fix_pass_inner(
+        self,
+        next_file: str,
+        next_file_name: str,
+        fix_debug: bool,
+        fix_file_debug: bool,
+        fix_nolog_rescan: bool,
+        fix_list: List[str],
+        collect_list: List[str],
+        original_file: str,
+        working_file_holder: List[Tuple[str, bool]],
+        temporary_files: List[str],
     ) -> Tuple[bool, Set[str], Set[str]]:
         # Scan the provided file for any token fixes.
         (
@@ -326,7 +365,13 @@ class FileScanHelper:
             did_any_tokens_get_fixed,
             collected_token_triggers,
         ) = self.__process_file_fix_tokens(
-            next_file, next_file_name, fix_debug, fix_file_debug, fix_list, collect_list
+            next_file,
+            next_file_name,
+            fix_debug,
+            fix_file_debug,
+            fix_list,
+            collect_list,
+            temporary_files,
         )
 
         # If tokens are returned, then no changes were made due to tokens and the
@@ -358,16 +403,21 @@ class FileScanHelper:
             fix_file_debug,
             fix_list,
             collect_list,
+            temporary_files,
         )
 
-        # If anything was fixed, copy the temporary file on top of the original file
-        # that was scanned.
+        # If anything was fixed, copy the temporary file on top of the working copy
+        # of the file that was scanned.  The original file itself is only replaced
+        # once every pass has completed.
         did_any_lines_get_fixed = bool(this_file_fix_line_records)
         did_anything_get_fixed = did_any_lines_get_fixed or did_any_tokens_get_fixed
         if did_anything_get_fixed:
+            if not working_file_holder:
+                working_file_holder.append(self.__create_working_file(original_file))
+            write_back_file = working_file_holder[0][0]
             if fix_debug and fix_file_debug:
-                print(f"Copy {temporary_line_file_name} to {next_file}")
-            shutil.copyfile(temporary_line_file_name, next_file)
+                print(f"Copy {temporary_line_file_name} to {write_back_file}")
+            shutil.copyfile(temporary_line_file_name, write_back_file)
         if fix_debug and fix_file_debug:
             print(f"Remove:{temporary_line_file_name}")
         os.remove(temporary_line_file_name)
@@ -391,6 +441,8 @@ class FileScanHelper:
         fix_debug: bool,
         fix_file_debug: bool,
         fix_nolog_rescan: bool,
+        original_file: str,
+        working_file_holder: List[Tuple[str, bool]],
     ) -> Tuple[bool, bool, int]:
         keep_processing = False
         collect_list = []
@@ -414,6 +466,8 @@ class FileScanHelper:
             fix_nolog_rescan,
             fix_list,
             collect_list,
+            original_file,
+            working_file_holder,
         )
 
         trigger_set = collected_token_triggers | collected_line_triggers
@@ -475,26 +529,75 @@ class FileScanHelper:
         did_anything_get_fixed = False
         keep_processing = True
 
-        while keep_processing:
-            (
-                keep_processing,
-                did_anything_get_fixed_this_time,
-                minimum_fix_level,
-            ) = self.__process_file_fix_next_level(
-                plugins_by_fix_level,
-                minimum_fix_level,
-                fixes_by_id,
-                next_file,
-                next_file_name,
-                fix_debug,
-                fix_file_debug,
-                fix_nolog_rescan,
-            )
-            did_anything_get_fixed = (
-                did_anything_get_fixed or did_anything_get_fixed_this_time
-            )
+        # The passes never write to the original file.  Fixes are accumulated in a
+        # working copy, created when the first fix is made, which replaces the original
+        # in one step once every pass has completed.  That way, the original is either
+        # untouched or completely fixed, even if a later pass fails or the application
+        # is terminated.
+        working_file_holder: List[Tuple[str, bool]] = []
+        try:
+            while keep_processing:
+                (
+                    keep_processing,
+                    did_anything_get_fixed_this_time,
+                    minimum_fix_level,
+                ) = self.__process_file_fix_next_level(
+                    plugins_by_fix_level,
+                    minimum_fix_level,
+                    fixes_by_id,
+                    working_file_holder[0][0] if working_file_holder else next_file,
+                    next_file_name,
+                    fix_debug,
+                    fix_file_debug,
+                    fix_nolog_rescan,
+                    next_file,
+                    working_file_holder,
+                )
+                did_anything_get_fixed = (
+                    did_anything_get_fixed or did_anything_get_fixed_this_time
+                )
+
+            if working_file_holder:
+                self.__replace_with_working_file(
+                    working_file_holder[0][0], next_file, working_file_holder[0][1]
+                )
+        finally:
+            if working_file_holder and os.path.exists(working_file_holder[0][0]):
+                os.remove(working_file_holder[0][0])
 
         return did_anything_get_fixed
+
+    @staticmethod
+    def __create_working_file(next_file: str) -> Tuple[str, bool]:
+        """
+        Create the working copy next to the file being fixed, so that it can replace
+        that file with a rename.  If that directory cannot be written to, fall back
+        to the default temporary directory and to overwriting the file in place.
+        """
+        actual_file = os.path.realpath(next_file)
+        try:
+            file_handle, working_file = tempfile.mkstemp(
+                prefix=f".{os.path.basename(actual_file)}.",
+                suffix=".tmp",
+                dir=os.path.dirname(actual_file),
+            )
+            can_replace = True
+        except OSError:
+            file_handle, working_file = tempfile.mkstemp()
+            can_replace = False
+        os.close(file_handle)
+        return working_file, can_replace
+
+    @staticmethod
+    def __replace_with_working_file(
+        working_file: str, next_file: str, can_replace: bool
+    ) -> None:
+        actual_file = os.path.realpath(next_file)
+        if can_replace:
+            shutil.copymode(actual_file, working_file)
+            os.replace(working_file, actual_file)
+        else:
+            shutil.copyfile(working_file, actual_file)
 
     # pylint: enable=too-many-arguments, too-many-locals
 
@@ -508,10 +611,12 @@ class FileScanHelper:
         fix_file_debug: bool,
         fix_list: List[str],
         collect_list: List[str],
+        temporary_files: List[str],
     ) -> Tuple[List[FixLineRecord], str, Set[str]]:
         source_provider = FileSourceProvider(next_file)
         with tempfile.NamedTemporaryFile() as temp_output:
             temporary_file_name = temp_output.name
+        temporary_files.append(temporary_file_name)
         with open(temporary_file_name, "wt", encoding="utf-8") as source_file:
             POGGER.info("Scanning before line-by-line fixes.")
             fix_context = self.__plugins.starting_new_file(
@@ -567,6 +672,7 @@ class FileScanHelper:
         fix_file_debug: bool,
         fix_list: List[str],
         collect_list: List[str],
+        temporary_files: List[str],
     ) -> Tuple[str, List[MarkdownToken], bool, Set[str]]:
         self.__print_file_in_debug_mode(fix_debug, fix_file_debug, next_file)
 
@@ -615,6 +721,7 @@ class FileScanHelper:
                 fix_debug,
                 fix_file_debug,
                 replace_tokens_list,
+                temporary_files,
             )
         return (
             next_file,
@@ -767,6 +874,7 @@ class FileScanHelper:
         fix_debug: bool,
         fix_file_debug: bool,
         replace_tokens_list: List[ReplaceTokensRecord],
+        temporary_files: List[str],
     ) -> Tuple[str, List[MarkdownToken], bool]:
 
         did_any_tokens_get_fixed = self.__process_file_fix_tokens_apply_fixes_inner(
@@ -780,6 +888,7 @@ class FileScanHelper:
             print(f"MARKDOWN:{ParserHelper.make_value_visible(markdown_from_tokens)}")
         with tempfile.NamedTemporaryFile() as temp_output:
             temporary_file_name = temp_output.name
+        temporary_files.append(temporary_file_name)
         with open(temporary_file_name, "wt", encoding="utf-8") as source_file:
             source_file.write(markdown_from_tokens)
             next_file = temporary_file_name
